@@ -24,6 +24,12 @@ def verify_function(src, key, prop, first=None):
         return finish(run, src, key, t0)
     first = True
     while run.worklist:
+        # a function with obligations the solvers leave open is undecided whatever the remaining
+        # paths say: do not spend more than a few minutes on it (refuted obligations found so far
+        # are kept)
+        if time.time() - t0 > 150 and sum(1 for o in run.obligations if o.result == "unknown") >= 4:
+            run.undecided.append("exploration stopped: 4 or more obligations left open by the solvers after 150 s")
+            break
         decisions = run.worklist.pop()
         run.paths += 1
         if run.paths > run.max_paths:
